@@ -213,15 +213,15 @@ Proof.
 Qed.
 
 (* ---- back substitution: a solution, or the division by a zero pivot ---- *)
-Lemma for_rev_from_or {S} (I : nat -> S -> Prop) n lo (body : nat -> S -> res S) (s : S) :
+Lemma for_rev_from_or {S} (I : nat -> S -> Prop) (Q : Prop) n lo (body : nat -> S -> res S) (s : S) :
   I n s ->
   (forall k s, k < n -> I (Datatypes.S k) s ->
-     (exists s', body (lo + k) s = Ok s' /\ I k s') \/ body (lo + k) s = Panic DivZero) ->
-  (exists s', for_rev_from n lo body s = Ok s' /\ I 0 s') \/ for_rev_from n lo body s = Panic DivZero.
+     (exists s', body (lo + k) s = Ok s' /\ I k s') \/ (body (lo + k) s = Panic DivZero /\ Q)) ->
+  (exists s', for_rev_from n lo body s = Ok s' /\ I 0 s') \/ (for_rev_from n lo body s = Panic DivZero /\ Q).
 Proof.
   revert s; induction n as [|n IH]; intros s H0 Hstep; cbn.
   - left; eauto.
-  - destruct (Hstep n s) as [(s1 & E1 & H1)|E1]; [lia|auto| |].
+  - destruct (Hstep n s) as [(s1 & E1 & H1)|(E1 & HQ)]; [lia|auto| |].
     + rewrite E1; cbn [bind]. apply IH; auto.
     + rewrite E1; cbn [bind]. now right.
 Qed.
@@ -229,30 +229,36 @@ Qed.
 Lemma back_loop_total n mm (au : matrix) (y : list T) :
   okM n mm au -> 1 <= mm -> length y = n ->
   (exists x l, for_rev 0 n (back_step mm au) (y, 1) = Ok (x, l)) \/
-  for_rev 0 n (back_step mm au) (y, 1) = Panic DivZero.
+  (for_rev 0 n (back_step mm au) (y, 1) = Panic DivZero /\ exists i, i < n /\ mat_at au mm i 0 = zero).
 Proof.
   intros Hau Hmm Hy. unfold for_rev. rewrite Nat.sub_0_r.
   destruct (for_rev_from_or (fun t (s : list T * nat) => length (fst s) = n /\ snd s = Nat.min (n - t + 1) mm)
+              (exists i, i < n /\ mat_at au mm i 0 = zero)
               n 0 (back_step mm au) (y, 1)) as [((x & l) & E & _)|E]; auto.
   - cbn [fst snd]. split; auto. lia.
   - intros k [x l] Hk (Hx & Hl). cbn [fst snd Nat.add] in *. unfold back_step.
     rewrite (rd_ok x k zero) by lia. cbn [bind].
-    destruct (for_inv (fun _ (_ : T) => True) 1 l
-                (fun kk dum => let* a := mget au k kk in let* xk := rd x (kk + k) in Ok (sub dum (mul a xk)))
-                (nth k x zero)) as (dum & -> & _); auto; [lia| |].
+    match goal with |- context [for_ 1 l ?body ?d0] =>
+      destruct (for_inv (fun _ (_ : T) => True) 1 l body d0) as (dum & -> & _) end; auto; try lia.
     { intros kk d Hkk _. destruct (mget_total n mm au k kk) as (a & ->); auto; try lia. cbn [bind].
       rewrite (rd_ok x (kk + k) zero) by lia. cbn [bind]. eauto. }
-    cbn [bind]. destruct (mget_total n mm au k 0) as (d0 & ->); auto; try lia. cbn [bind].
-    rewrite (fl_div A FL). destruct (eqb d0 zero); [now right|]. cbn [bind].
-    rewrite upd_ok by lia. cbn [bind]. left. eexists; split; [reflexivity|]. cbn [fst snd].
-    rewrite upd_list_length. split; auto. destruct (Nat.ltb_spec l mm); lia.
+    cbn [bind]. destruct (mget_total n mm au k 0) as (d0 & Ed0); auto; try lia. rewrite Ed0. cbn [bind].
+    apply (mget_Ok_inv _ mm) in Ed0 as (-> & _); [|apply Hau].
+    rewrite (fl_div A FL). destruct (eqb (mat_at au mm k 0) zero) eqn:Ez.
+    + right. split; auto. exists k. split; auto. now apply (fl_eqb A FL).
+    + cbn [bind]. rewrite upd_ok by lia. cbn [bind]. left. eexists; split; [reflexivity|]. cbn [fst snd].
+      rewrite upd_list_length. split; auto. destruct (Nat.ltb_spec l mm); lia.
   - left; eauto.
 Qed.
 
-(* ---- band_solve answers, or refuses at a zero pivot: it never leaves its buffers ---- *)
+(* ---- band_solve answers, or refuses at a zero pivot of its own factorisation: it never leaves its buffers ---- *)
 Lemma band_solve_total_lemma (B : banded) (b : list T) :
   wfB B -> length b = bn B -> bm1 B <= bn B ->
-  (exists x, band_solve B b = Ok x) \/ band_solve B b = Panic DivZero.
+  (exists x, band_solve B b = Ok x) \/
+  (band_solve B b = Panic DivZero /\
+   exists auN alN indexN dN,
+     decompose_gen false B (compact B) (mat_new (bn B) (bm1 B) zero) (repeat 0 (bn B)) = Ok (auN, alN, indexN, dN) /\
+     exists i, i < bn B /\ mat_at auN (bm1 B + bm2 B + 1) i 0 = zero).
 Proof.
   intros (HwfM & Hrows & Hcols) Hb Hm1. unfold band_solve, band_solve_gen.
   rewrite <- Hb, Nat.eqb_refl. cbn [negb]. rewrite Hb.
@@ -268,9 +274,9 @@ Proof.
   cbn [bind]. destruct sN as [[[[auN alN] indexN] dN] lN]. destruct HN as (HauN & HalN & HixN & _ & HidxN).
   cbn [bind].
   destruct (fwd_loop_total n m1 alN indexN b) as (y & l & -> & Hy); auto. cbn [bind fst].
-  destruct (back_loop_total n mm auN y) as [(x & lx & E)|E]; auto; rewrite E; cbn [bind fst].
+  destruct (back_loop_total n mm auN y) as [(x & lx & E)|(E & Hz)]; auto; rewrite E; cbn [bind fst].
   - left; eauto.
-  - now right.
+  - right. split; auto. exists auN, alN, indexN, dN. split; auto.
 Qed.
 
 End Total.
